@@ -10,6 +10,9 @@ int main(int argc, char** argv) {
   int alias = arg_i("ALIAS", 0);
   uint64_t ks[] = {(uint64_t)arg_i("NRM_K", arg_i("k", 13)), 1, 2, 19, 62};
   uint64_t nns[] = {(uint64_t)arg_i("nn", 8), 2, 8};
+  int64_t olds[64]; int nold = 0; char key[16];
+  for (int i = 0; i < 64; ++i) { snprintf(key, sizeof key, "old%d", i); if (!arg_has(key)) break; int64_t v = arg_i(key, 0); int dup = 0; for (int j = 0; j < nold; ++j) dup |= olds[j] == v; if (!dup && nold < 8) olds[nold++] = v; }
+  uint64_t nperm = 1, perm = 0; for (uint64_t i = 0; i < AS && nold; ++i) nperm *= nold; if (nperm > 5000) nperm = 5000;
   for (int t = 0; t < 3 && !g_found; ++t) for (int kt = 0; kt < 5 && !g_found; ++kt) {
     uint64_t nn = nns[t], k = ks[kt]; if (nn == 0 || nn > 4096) nn = 8; if (k < 1 || k > 62) k = 13;
     MODULE mod; memset(&mod, 0, sizeof(mod)); mod.nn = nn; mod.m = nn / 2;
@@ -19,8 +22,15 @@ int main(int argc, char** argv) {
     int64_t* res = xalloc(rn * 8); int64_t* a = alias ? res : xalloc(an * 8); uint8_t* tmp = xalloc(nn * 8);
     for (uint64_t i = 0; i < rn; ++i) res[i] = rnd_bits(61);
     if (!alias) for (uint64_t i = 0; i < an; ++i) a[i] = rnd_bits(kt % 2 ? 62 : 40);
+    // the verifier's counterexample: distinct __CPROVER_old snapshots are the input limbs at the ghost coefficient, in
+    // an order we do not know -> try every assignment of distinct traced values to the limbs (coefficient 0), round-robin
+    if (t == 0 && kt == 0 && nold >= 1 && AS >= 1 && perm < nperm) {
+      uint64_t q = perm;
+      for (uint64_t i = 0; i < AS; ++i) { a[i * asl + 0] = olds[q % nold]; q /= nold; }
+      ++perm; if (perm < nperm) { kt = -1; }
+    }
     int64_t* a0 = xalloc((alias ? rn : an) * 8); memcpy(a0, a, (alias ? rn : an) * 8);
-    printf("calling vec_znx_normalize_base2k_ref nn=%lu k=%lu res_size=%lu a_size=%lu (exact-size heap buffers)\n", (unsigned long)nn, (unsigned long)k, (unsigned long)RS, (unsigned long)AS); fflush(stdout);
+    if (perm <= 1) printf("calling vec_znx_normalize_base2k_ref nn=%lu k=%lu res_size=%lu a_size=%lu (exact-size heap buffers)\n", (unsigned long)nn, (unsigned long)k, (unsigned long)RS, (unsigned long)AS); fflush(stdout);
     vec_znx_normalize_base2k_ref(&mod, k, res, RS, rsl, a, AS, asl, tmp);
     for (uint64_t g = 0; g < nn && !g_found; ++g) {
       i128 c = 0;
